@@ -86,7 +86,8 @@ class Prop(Check):
     ]
     DRIVER = "Drivers/Obj.lean"
     QUICK_CASES = 300
-    THOROUGH_CASES = 12000
+    THOROUGH_CASES = 6000
+    PROCS_THOROUGH = 4
     RULE = ("random grammar (2-6 common rules, abstract and match rules, recursion, references, user classes) + derived "
             "model + 6-14 navigation calls; non-trivial = model with >= 4 contained objects, nesting depth >= 2, at "
             "least one resolved reference to an object, and a get_children call whose result is a non-empty proper "
